@@ -56,7 +56,7 @@ alias.register_atoms(ir.dates.Period)
 PROPERTY = "C20"
 LEVEL = "model_checking"
 RULE = ("A: BFS over operation histories on a population of <= 3 model objects, separately for a linear "
-        "Simultaneous (lead + measurement equation), a non-linear Simultaneous (log variable), a Sequential "
+        "Simultaneous (lead + measurement equation), a non-linear Simultaneous (log variable, steady autovalue), a Sequential "
         "and a RedVAR, from 2-4 prepared initial objects per kind; every transition applies one operation of "
         "the alphabet to the real objects and compares all objects with fresh single-variant models driven "
         "to the reference state; distinct = canonical population state (sorted tuple of (provenance, "
@@ -119,15 +119,19 @@ NL_SRC = """
 !transition_shocks
     shk_x, shk_z
 !parameters
-    rho, c
+    rho, c, ss_x
 !transition_equations
     x = rho*x[-1] + c + shk_x + 0.1*x[+1];
-    log(z) = 0.5*log(z[-1]) + 0.2*x + shk_z;
+    log(z) = 0.5*log(z[-1]) + 0.2*x + 0.1*(x - ss_x) + shk_z !! log(z) = 0.5*log(z) + 0.2*x;
 !measurement_variables
     obs
 !measurement_equations
     obs = x;
+!steady_autovalues
+    ss_x := x;
 """
+# ss_x is a parameter the model sets itself from the steady state (steady autovalue) every time steady() runs, per
+# variant; it enters the dynamic equation of z only, so a stale value shows in the solution intercept and simulation
 SEQ_SRC = """
 !parameters
     a, b
